@@ -534,6 +534,11 @@ func (s *Sched) schedule() *Thread {
 					break
 				}
 			}
+			if idle != nil && tm != nil && tm.when <= s.clock {
+				// a timer that is already due fires before the system counts as idle
+				s.fire(tm)
+				continue
+			}
 			if idle != nil {
 				s.barrier(12)
 				idle.op = &Op{kind: opReady, desc: "idle"}
